@@ -686,7 +686,7 @@ func genC07(ctx *hx.Ctx, emit func(hx.Case)) {
 			if v, ok := sentMap[k]; ok {
 				return v
 			}
-			sentMap[k] = in == "path" || r.Chance(75)
+			sentMap[k] = in == "path" || r.Chance(85)
 			return sentMap[k]
 		}
 		allowDup := r.Chance(15)
@@ -701,7 +701,7 @@ func genC07(ctx *hx.Ctx, emit func(hx.Case)) {
 				}
 				seen[key] = true
 				out = append(out, map[string]any{"name": name, "in": in, "required": in == "path" || r.Chance(50),
-					"sent": sentOf(in, name), "valid": r.Chance(60), "ref": r.Chance(15)})
+					"sent": sentOf(in, name), "valid": r.Chance(80), "ref": r.Chance(15)})
 			}
 			return out
 		}
@@ -733,7 +733,7 @@ func genC07(ctx *hx.Ctx, emit func(hx.Case)) {
 		docSec := randReqs()
 		acc := []any{}
 		for _, k := range c07Uniq(keys) {
-			if r.Chance(55) {
+			if r.Chance(70) {
 				acc = append(acc, k)
 			}
 		}
@@ -743,7 +743,7 @@ func genC07(ctx *hx.Ctx, emit func(hx.Case)) {
 		}
 		var body any
 		if r.Chance(65) {
-			body = c07B(r.Chance(50), r.Chance(70), r.Chance(80), r.Chance(60))
+			body = c07B(r.Chance(50), r.Chance(80), r.Chance(90), r.Chance(80))
 		}
 		c := hx.Case{"opParams": opParams, "pathParams": randParams(), "opSecurity": opSec, "docSecurity": docSec,
 			"accepted": acc, "body": body, "bodyKind": hx.Pick(r, []string{"nil", "nobody", "empty", "json"}),
